@@ -265,25 +265,63 @@ def run(c, srv, tag, scripts):
         crashes.append((k, n_events - 1 - acc, out[-1500:]))
         first = k + 1
         part += 1
-    return traces, crashes
+    return [merge_traces(traces, os.path.join(c.build_dir, "%s_%s.ndjson" % (srv.name, tag)))], crashes
+
+
+def merge_traces(paths, out):
+    """one file from the traces of consecutive harness processes (a Crash event is followed by the next Reset)"""
+    if len(paths) == 1:
+        return paths[0]
+    with open(out, "w") as f:
+        for p in paths:
+            with open(p) as g:
+                for line in g:
+                    f.write(line if line.endswith("\n") else line + "\n")
+            os.remove(p)
+    return out
 
 
 def trace_cfg(c):
     return vlib.write_cfg(c, "attsec_trace.cfg", "SPECIFICATION TSpec\nCHECK_DEADLOCK FALSE\n")
 
 
+def split_trace(path, max_lines=12000):
+    """split a long trace at Reset events into parts of about max_lines events -> list of part paths"""
+    with open(path) as f:
+        lines = [l for l in f if l.strip()]
+    if len(lines) <= max_lines * 3 // 2:
+        return [path]
+    parts, cur = [], []
+    for l in lines:
+        if l.startswith('{"e":"Reset"') and len(cur) >= max_lines:
+            parts.append(cur)
+            cur = []
+        cur.append(l)
+    if cur:
+        parts.append(cur)
+    out = []
+    for i, p in enumerate(parts):
+        pp = "%s.part%d.ndjson" % (path[:-7], i)
+        with open(pp, "w") as f:
+            f.writelines(p)
+        out.append(pp)
+    return out
+
+
 def validate(c, mode, traces):
-    """-> list of mismatches (trace_path, line_no, event, (name, ctx, [tags]), events of the execution up to the line)"""
+    """-> list of mismatches (trace_path, line_no, event, (name, ctx, [tags]), events of the execution up to the line);
+    long traces are validated in parts (one TLC each, JOBS in parallel)"""
     res = []
     if not traces:
         return res
     cfg = trace_cfg(c)
-    with ThreadPoolExecutor(min(len(traces), JOBS)) as ex:
-        verdicts = list(ex.map(lambda p: vlib.validate_trace(SPEC_DIR, "AttSecTrace.tla", cfg, p, timeout=1800,
-                                                             env={"ATTSEC_MODE": mode}, heap="4g -Xss64m"), traces))
-    for tp, v in zip(traces, verdicts):
+    parts = [(tp, pp) for tp in traces for pp in split_trace(tp)]
+    with ThreadPoolExecutor(min(len(parts), JOBS)) as ex:
+        verdicts = list(ex.map(lambda p: vlib.validate_trace(SPEC_DIR, "AttSecTrace.tla", cfg, p[1], timeout=1800,
+                                                             env={"ATTSEC_MODE": mode}, heap="4g -Xss64m"), parts))
+    for (tp, pp), v in zip(parts, verdicts):
         why = _gatt.parse_why(v.out)
-        evs = vlib.read_ndjson(tp)
+        evs = vlib.read_ndjson(pp)
         c.add_traces(sum(1 for e in evs if e.get("e") == "Reset"), v.events)
         for ln in v.mismatch_lines:
             i = ln - 1
